@@ -2,6 +2,7 @@
    Statements only; proofs are in Proofs/C13Proofs.v; the operations with explicit partiality
    are in Model/Partial.v (one per panic site of DESIGN.md Appendix C). *)
 From Verif Require Import Base Scope Types Prog Pop Token Authorize System Config Partial C13Proofs.
+From Verif Require Dcr DcrFault DcrFrame C13DcrProofs.
 Local Open Scope N_scope.
 
 (* ================= no_panic_<site>: for ALL inputs, guard passed => no Panic ================= *)
@@ -252,3 +253,42 @@ Theorem refused_callback_client_deleted :
   fst (run_seq (continue_auth orphan_world 3 0%Z r) orphan_store) = mkStore [] (del_asess 41 [orphan_session]) [].
 Proof. vm_compute. repeat split. Qed.
 Print Assumptions refused_callback_client_deleted.
+
+(* ================= the frame clause at the dynamic-registration endpoints ================= *)
+
+(* On the metadata model of POST /register and GET/PUT/DELETE /register/{id} (Model/Dcr.v, the model
+   suites c12 and c13dcr run against the provider): for EVERY server feature set, store, operation
+   index, request document, presented token and embedder hook, a request that is not accepted (any
+   error answer; a /token request answered without a token) returns the store it was given. *)
+Theorem dcr_refused_frame : forall cfg s n o,
+  Dcr.dcr_accepted (snd (Dcr.dstep cfg s n o)) = false -> fst (Dcr.dstep cfg s n o) = s.
+Proof. exact C13DcrProofs.dcr_refused_frame. Qed.
+Print Assumptions dcr_refused_frame.
+
+(* On the storage-call skeleton with the in-place write of util.go update made explicit
+   (Model/DcrFrame.v: client.ClientMetaInfo = *meta and the minted token / secret are written into
+   the object the storage handed out, then CSave): for every world, store, request and every
+   content f the update would write, a refused request leaves the store identical under the
+   aliasing interpretation (the default in-memory storage, any cache sharing pointers) and under
+   the copying one. *)
+Theorem dcr_refused_frame_alias : forall w n o st,
+  DcrFrame.df_refused (snd (run_alias (DcrFrame.dx_handler w n o) st)) = true ->
+  fst (run_alias (DcrFrame.dx_handler w n o) st) = st.
+Proof. exact C13DcrProofs.dx_refused_frame_alias. Qed.
+Print Assumptions dcr_refused_frame_alias.
+Theorem dcr_refused_frame_copy : forall w n o st,
+  DcrFrame.df_refused (snd (run_seq (DcrFrame.dx_handler w n o) st)) = true ->
+  fst (run_seq (DcrFrame.dx_handler w n o) st) = st.
+Proof. exact C13DcrProofs.dx_refused_frame_seq. Qed.
+Print Assumptions dcr_refused_frame_copy.
+
+(* The order of util.go update is what the theorem rests on: with the in-place write moved before
+   the validations (dx_update_early) a refused update replaces the registered client in the aliasing
+   store - and only there, which is why suite c13dcr compares the stored clients under both flavours. *)
+Theorem dcr_early_write_breaks_frame :
+  DcrFrame.df_refused (snd (run_alias (DcrFrame.dx_update_early DcrFrame.dxe_world 1 DcrFrame.dxe_req DcrFrame.dxe_rename) DcrFrame.dxe_store)) = true /\
+  fst (run_alias (DcrFrame.dx_update_early DcrFrame.dxe_world 1 DcrFrame.dxe_req DcrFrame.dxe_rename) DcrFrame.dxe_store) <> DcrFrame.dxe_store /\
+  fst (run_seq (DcrFrame.dx_update_early DcrFrame.dxe_world 1 DcrFrame.dxe_req DcrFrame.dxe_rename) DcrFrame.dxe_store) = DcrFrame.dxe_store /\
+  fst (run_alias (DcrFrame.dx_update DcrFrame.dxe_world 1 DcrFrame.dxe_req DcrFrame.dxe_rename) DcrFrame.dxe_store) = DcrFrame.dxe_store.
+Proof. exact C13DcrProofs.dx_early_breaks_frame. Qed.
+Print Assumptions dcr_early_write_breaks_frame.
